@@ -1,12 +1,12 @@
 #!/bin/bash
-# usage: harness/harmless_all.sh <repo-copy> "<props>"   -- applies every archived behaviour-preserving refactoring to a COPY of the
+# usage: harness/harmless_all.sh <repo-copy> "<props>" [name-prefix]   -- applies every archived behaviour-preserving refactoring to a COPY of the
 # repository (never /repo), runs the given checks against it (VERIF_REPO), restores the copy; prints one line per diff
 cd "$(dirname "$0")/.."
 repo="$1"; props="${2:-$(/venv/bin/python -c "import json; print(' '.join(c['property_id'] for c in json.load(open('MANIFEST.json'))['checks']))")}"
 [ "$repo" = "/repo" ] && { echo "refusing to patch /repo"; exit 2; }
 [ -x lean/.lake/build/bin/pyctr_model ] || (cd lean && lake build >/dev/null 2>&1)
 total=0
-for d in seeded-harmless/*.diff; do
+for d in seeded-harmless/${3:-}*.diff; do
   n=$(basename $d .diff)
   git -C "$repo" apply "$PWD/$d" 2>/dev/null || { echo "$n: does not apply to this revision (skipped)"; continue; }
   a=0
